@@ -93,6 +93,20 @@ CHECKS.update({
         ref="6/C20, 12"),
 })
 
+
+CHECKS.update({
+    "C17": dict(
+        technique="Coq proof (well-formedness checker sound; priority order; TALES and repeat-variable laws; compiler = serialiser on TAL-free streams) + translation validation (real compiled programs checked by the Coq wf_program on every run) + compile/VM/evaluate correspondence + independent reference evaluator (PARTIAL: full compiler correctness not proved)",
+        text="Theorems: the boolean program checker wf_program is sound (balanced nested scopes, commands in TAL priority order, every jump symbol is the end of the owning element, macros/slots are single elements); the compiler's opcode sort is a sorted permutation; TALES alternation/not/exists/nocall laws; repeat-variable arithmetic incl. letter bijectivity for every position and roman numerals for n < 3999 (finite sweep, bound stated). Compiler => well-formed and compiler correctness are proved for the TAL-free fragment only (_partial, full statements kept visible). Every compiled program of every generated template (600 quick / 10 000 thorough) is written as a Gallina literal and checked by wf_program inside Coq; the compile model reproduces the real compiler on recorded html.parser event streams; the abstract VM follows the real interpreter's recorded control flow; an independent tree-walking evaluator written from the TAL 1.4 order of operations is compared with real expand output.",
+        note="PARTIAL: C17_compiler_correct and compile=>wf beyond the TAL-free fragment are checked per program (translation validation), not proved for all templates. Trusts: Coq kernel; html.parser (event streams taken as given); Python eval as an oracle; value universe restricted to str/num/seq/map/None/callable.",
+        ref="6/C17, 12"),
+    "C18": dict(
+        technique="Coq proof (scope/context discipline of the VM for every well-formed program, escaping, python gate, pass-through) + the same translation validation as C17 + skeleton / canary / snapshot / double-expansion oracles",
+        text="Theorems for every well-formed program, any data state, all decision oracles and any fuel: the VM never gets stuck and every terminating run restores locals, localStack, repeatMap and repeatStack with an empty scope stack (including macro calls with slot filling); only explicit global defines can add names; dynamic text without `structure` is escape(false) of the value and dynamic attribute values are escape(true); with allowPythonPath off no python evaluation happens at any nesting depth; a TAL-free event stream compiles to one OUTPUT of its serialisation. The hypothesis `wf_program` is checked inside Coq for every real compiled program on every run. Oracles on the real engine: html.parser skeletons of expansions under contexts differing only in string contents, a canary for python: paths (also through handlers/tal.py), context snapshots before/after, TAL-free documents expanded twice.",
+        note="Trusts: Coq kernel; html.parser; termination of the VM is not proved (the theorem covers every terminating run); no tokenizer model for the skeleton clause (oracle only).",
+        ref="6/C18, 12"),
+})
+
 NOT_YET = {}
 
 
